@@ -713,15 +713,24 @@ class UTrenchColumn(TrenchColumn):
             tmp_pillar = geometry.LineString([[x, ymin], [x, ymax]]).buffer(self.adj_pillar_width)
             tmp_bed = tmp_bed.difference(tmp_pillar)
 
-        # Add bed blocks
+        # Add bed blocks. Rounding the corners (erosion followed by dilation) can split a bed where it is narrower than
+        # the corner diameter, or use it up: every remaining part is a bed block of its own.
+        bed_parts = []
+        for p in getattr(tmp_bed, 'geoms', [tmp_bed]):
+            rounded = p.buffer(-self.round_corner).buffer(self.round_corner)
+            bed_parts.extend(
+                part
+                for part in getattr(rounded, 'geoms', [rounded])
+                if isinstance(part, geometry.Polygon) and not part.is_empty
+            )
         self.trenchbed = [
             Trench(
-                block=normalize_polygon(p.buffer(-self.round_corner).buffer(self.round_corner)),
+                block=normalize_polygon(part),
                 height=0.015,
                 delta_floor=self.delta_floor,
                 safe_inner_turns=self.safe_inner_turns,
             )
-            for p in tmp_bed.geoms
+            for part in bed_parts
         ]
         return None
 
